@@ -19,7 +19,8 @@ UNITS = {
                 test=[(".", ["go", "test", "-count=1", "-vet=off", "./..."])],
                 govc=["-unit", "lib", "-funcs", ".*", "-skip", r"^otp\.init$"]),
     "wasm": dict(files=["wasm/main.go", "derive_rfc4226_wasm.go", "validate_wasm.go"],
-                 test=[(".", ["go", "test", "-count=1", "-vet=off", "./..."]), (".", ["env", "GOOS=js", "GOARCH=wasm", "go", "build", "-o", os.devnull, "./wasm/"])],
+                 # these files are compiled for js/wasm only: the native suite cannot see them; compile both packages (two arguments: no link step)
+                 test=[(".", ["env", "GOOS=js", "GOARCH=wasm", "go", "build", "./wasm/", "."])],
                  govc=["-unit", "wasm", "-funcs", r"^main\.|^otp\.(DeriveRFC4226Wasm|ValidateOTPWasm|pow10Wasm)", "-skip", r"^(otp\.init|main\.main)$"]),
     "api": dict(files=["internal/app/api/handlers.go", "internal/app/api/dto.go", "internal/app/api/routers.go"],
                 test=[(".", ["go", "test", "-count=1", "-vet=off", "./..."]), ("internal/app", ["go", "build", "./..."])],
